@@ -156,7 +156,7 @@ pub fn run(seed: u64, n: usize, extra: &[String]) -> String {
             let new = if rng.chance(1, 5) { old.clone() } else { mk(&mut rng) };
             // a huge single hunk (the tracker has a separate path for those) whose two sides differ in ONE character that shares
             // its leading or trailing UTF-8 bytes with its replacement: 中 / 丮 (E4 B8 AD / AE), é / è, 🙂 / 🙃
-            let (old, new) = if rng.chance(1, 2500) && !no_large {
+            let (old, new) = if rng.chance(1, 2500) {
                 let units = ["中", "é", "🙂", "a", "b "];
                 let count = 70_000 + rng.below(40_000);
                 let parts: Vec<&str> = (0..count).map(|_| *rng.pick(&units[..])).collect();
